@@ -183,18 +183,7 @@ def body(ctx):
     val.run()
     # every row of the table must be reachable for some shape (vacuity of the table itself)
     # ---- second step after a client exception: frames are ignored
-    f = prog.method('ConnectionState', 'process')
-    n2 = 0
-    for (s, w, fs1, shape1, infoA1, out1) in exc_states[:ctx.q(3, 12)]:
-        before = (len(w.outbuf.items), [len(ch.queue) for _, ch in all_queues(w)])
-        fs2 = FrameSym(prog, 'frame2')
-        for (s2, rv2) in ex.run(s, f, [Ref(w.state), Ref(w.inner), fs2.value]):
-            n2 += 1
-            w2 = s2.roots['w']
-            same = (len(w2.outbuf.items), [len(ch.queue) for _, ch in all_queues(w2)]) == before and err_name(prog, rv2) == 'Ok' and state_name(prog, w2) == 'ClientException'
-            m = ctx.decide(f"c07.after-exception#{n2}", s2.pc, z3.BoolVal(same), group='after a client exception every further frame is ignored (Ok, no effect)')
-            if m is not None:
-                report_io(ctx, prog, 'after-exception', f"collector {shape1}: a frame after the client exception is not ignored ({err_name(prog, rv2)})", s2, w2, [out1, err_name(prog, rv2)], s2.pc, z3.BoolVal(same), [fs1, fs2], shape=shape1, infoA=infoA1)
+    n2 = after_exception(ctx, ex, prog, exc_states)
     ctx.extra['second_step_paths'] = n2
     ctx.twin('c07.twin: some frame is answered with a client exception', [], z3.BoolVal(len(exc_states) == 0))
     import c08, c01
@@ -211,6 +200,35 @@ def body(ctx):
         ctx.replay_timeout = 180
         ctx.report('outbound-stream', f"write loop: {str(wv[0])[:300]}", {'solver_counterexamples': [str(v)[:300] for v in wv[:4]]}, c01.NATIVE, inject_into='src/io_loop/mod.rs', profiles=('dev',), hang_is_violation=True, panic_is_violation=True)
     do_reports(ctx, prog, reports)
+
+
+def after_exception(ctx, ex, prog, exc_states):
+    """one more fully symbolic frame from states in which a client exception has just been raised: ignored (Ok, no effect)"""
+    f = prog.method('ConnectionState', 'process')
+    n2 = 0
+    for (s, w, fs1, shape1, infoA1, out1) in exc_states[:ctx.q(3, 12)]:
+        before = (len(w.outbuf.items), [len(ch.queue) for _, ch in all_queues(w)])
+        fs2 = FrameSym(prog, 'frame2')
+        for (s2, rv2) in ex.run(s, f, [Ref(w.state), Ref(w.inner), fs2.value]):
+            n2 += 1
+            w2 = s2.roots['w']
+            same = (len(w2.outbuf.items), [len(ch.queue) for _, ch in all_queues(w2)]) == before and err_name(prog, rv2) == 'Ok' and state_name(prog, w2) == 'ClientException'
+            m = ctx.decide(f"c07.after-exception#{n2}", s2.pc, z3.BoolVal(same), group='after a client exception every further frame is ignored (Ok, no effect)')
+            if m is not None:
+                report_io(ctx, prog, 'after-exception', f"collector {shape1}: a frame after the client exception is not ignored ({err_name(prog, rv2)})", s2, w2, [out1, err_name(prog, rv2)], s2.pc, z3.BoolVal(same), [fs1, fs2], shape=shape1, infoA=infoA1)
+    return n2
+
+
+def exception_then_frame(ctx, prog):
+    """for other checks (C05): a method only a client may send raises a client exception; whatever frame the server sends next is ignored,
+    so that the exception's Connection.Close is what ends the connection (and ClientException what callers see)"""
+    ex = io_executor(ctx, prog)
+    def pre(fs, a, b):
+        return [fs.is_method('Basic', 'Qos'), fs.chan('Method') == a]
+    fs, a, b, infoA, res = explore_step(ctx, ex, prog, shapeA='None', pre=pre)
+    states = [(s, w, fs, 'None', infoA, err_name(prog, rv)) for (s, w, rv) in res if not isinstance(rv, Panic) and err_name(prog, rv) == 'Ok' and state_name(prog, w) == 'ClientException']
+    m = ctx.decide(f"{ctx.pid.lower()}.exception-raised", [], z3.BoolVal(len(states) > 0), group='a method only a client may send raises a client exception')
+    return after_exception(ctx, ex, prog, states)
 
 
 def do_reports(ctx, prog, reports):
